@@ -32,14 +32,23 @@ pub(crate) fn next_index(id: Option<Id>) -> u64 {
 impl Model {
     /// Arbitrary reachable state with at most two live entries.
     pub(crate) fn any_reachable() -> Model {
+        Self::any_reachable_n(2)
+    }
+
+    /// Arbitrary reachable state with at most `nmax` (<= 3) live entries.
+    pub(crate) fn any_reachable_n(nmax: usize) -> Model {
         let purged: Option<Id> = kani::any();
         let n: usize = kani::any();
-        kani::assume(n <= 2);
+        kani::assume(n <= nmax && n <= 3);
         let e0: (Id, P) = (kani::any(), kani::any());
         let e1: (Id, P) = (kani::any(), kani::any());
+        let e2: (Id, P) = if nmax >= 3 { (kani::any(), kani::any()) } else { ((255, 255), P { n: 0, b: 0 }) };
         // ids stay below 250 so that index+1 never overflows u8 (the u64
         // boundary is C16's subject)
         kani::assume(e0.0 .1 < 250 && e1.0 .1 < 250);
+        if n >= 3 {
+            kani::assume(e2.0 .1 < 250 && e2.0 .1 == e1.0 .1 + 1 && e2.0 > e1.0);
+        }
         if let Some(p) = purged {
             kani::assume(p.1 < 250);
             if n >= 1 {
@@ -49,7 +58,9 @@ impl Model {
         if n >= 2 {
             kani::assume(e1.0 .1 == e0.0 .1 + 1 && e1.0 > e0.0);
         }
-        let last = if n >= 2 {
+        let last = if n >= 3 {
+            Some(e2.0)
+        } else if n == 2 {
             Some(e1.0)
         } else if n == 1 {
             Some(e0.0)
@@ -63,7 +74,7 @@ impl Model {
             purged,
             user_data: kani::any(),
             n,
-            e: [e0, e1, ((255, 255), P { n: 0, b: 0 })],
+            e: [e0, e1, e2],
         }
     }
 
@@ -183,7 +194,7 @@ pub(crate) fn inject(rl: &mut RaftLog<KTypes>, m: &Model) {
     rl.state_machine.log = BTreeMap::from_sorted3(
         (m.e[0].0 .1 as u64, ld(m.e[0].0)),
         (m.e[1].0 .1 as u64, ld(m.e[1].0)),
-        (u64::MAX, ld((255, 255))),
+        (m.e[2].0 .1 as u64, ld(m.e[2].0)),
         m.n,
     );
     {
@@ -193,6 +204,9 @@ pub(crate) fn inject(rl: &mut RaftLog<KTypes>, m: &Model) {
         }
         if m.n >= 2 {
             c.insert(m.e[1].0, m.e[1].1);
+        }
+        if m.n >= 3 {
+            c.insert(m.e[2].0, m.e[2].1);
         }
     }
     let s = rl.log_state_mut();
